@@ -135,7 +135,40 @@ def _span_escapes(f, b):
                         ty = pe.get("ty")
                     elif pe["k"] != "deref":
                         ty = None
+    # a cursor whose gap is known to be zero on this path (`rows.skip_cols == 0`) has no cells between its rows: its span IS its rows
+    dom_ = b.dominators() if hits else {}
+    dgap = Dfx(b) if hits else None
+    gapless = set()
+    for sb, bl in enumerate(b.blocks if hits else []):
+        tt = bl["term"]
+        if not tt or tt["k"] != "switch" or bl["cleanup"]:
+            continue
+        e = strip(dgap.expr(tt["discr"]))
+        neg = False
+        while e[0] == "un" and e[1] == "Not":
+            neg = not neg; e = strip(e[2])
+        if e[0] != "bin" or e[1] not in ("Eq", "Ne"):
+            continue
+        l_, r_ = strip(e[2]), strip(e[3])
+        fld = l_ if l_[0] == "field" else (r_ if r_[0] == "field" else None)
+        zero = any(x[0] == "const" and re.match(r"^(const )?0_usize$", str(x[1])) for x in (l_, r_))
+        if fld is None or not zero:
+            continue
+        is_gap = any(fld[2] < len(fl) and fl[fld[2]] in ("skip_cols", "skip") for fl in fields.values())
+        if not is_gap:
+            continue
+        tm = [(int(a_), b2) for a_, b2 in tt["targets"]]
+        for v_, sx in tm + [(None, tt["otherwise"])]:
+            if v_ is not None and v_ not in (0, 1):
+                continue
+            truth = (v_ == 1) or (v_ is None and any(x == 0 for x, _ in tm))
+            if neg:
+                truth = not truth
+            if (e[1] == "Eq") == truth:
+                gapless.add(sx)
     for bi, si, u, h in hits:
+        if any(g_ == bi or g_ in dom_.get(bi, set()) for g_ in gapless):
+            continue
         why, span = None, None
         if si is None:
             fn = (u.get("func") or {}).get("fn") if u.get("k") == "call" else None
